@@ -362,14 +362,19 @@ fn file_names(platform: u8, exp: u8, ctx: &Ctx) -> PResult {
             let idx2 = guard("index2_filename", || repo.index2_filename(chunk, category_enum(cat)))?;
             ensure_eq!(idx, format!("{:02x}{:02}{:02}.{}.index", cat, exp, chunk, tag), "index-filename-form", "index file name");
             ensure_eq!(idx2, format!("{:02x}{:02}{:02}.{}.index2", cat, exp, chunk, tag), "index2-filename-form", "index2 file name");
-            patch.extend_from_slice(&zp::header_update(true, b'I', cat as u16, sub, 0, &hdr));
-            patch.extend_from_slice(&zp::header_update(true, b'I', cat as u16, sub, 2, &hdr));
+            // which file a header update goes to is decided by its file kind and file id alone; every header
+            // kind (version, index, data) of an index file lands in that index file
+            for kind in [b'V', b'I', b'D'] {
+                patch.extend_from_slice(&zp::header_update(true, kind, cat as u16, sub, 0, &hdr));
+                patch.extend_from_slice(&zp::header_update(true, kind, cat as u16, sub, 2, &hdr));
+            }
             want_files.insert(idx);
             want_files.insert(idx2);
             for dat in 0..8u32 {
                 let name = guard("dat_filename", || repo.dat_filename(chunk, category_enum(cat), dat))?;
                 ensure_eq!(name, format!("{:02x}{:02}{:02}.{}.dat{}", cat, exp, chunk, tag, dat), "dat-filename-form", "dat file name");
                 patch.extend_from_slice(&zp::add_data(cat as u16, sub, dat, 0, &block, 0));
+                patch.extend_from_slice(&zp::header_update(false, [b'V', b'I', b'D'][(dat as usize + chunk as usize) % 3], cat as u16, sub, dat, &hdr));
                 want_files.insert(name);
                 ctx.eval();
                 if exp >= 1 || chunk >= 1 || platform != 0 {
@@ -458,7 +463,7 @@ fn jobs(ctx: &Ctx) -> Vec<Job> {
 pub fn property() -> Property {
     Property {
         id: "C15",
-        rule: "Exhaustive enumeration. (i) all 8x16x2 (race, tribe, gender): get_supported_tribes partitions the 16 tribes into 8 disjoint pairs with race r owning tribe codes {2r-1, 2r} (structural oracle, no name table); get_race_id is Some exactly for own tribes; race codes injective over body types (race x gender, Hyur split by tribe). (ii) skeleton, equipment (10 slots x ids 0..9999 x 32 valid triples) and character (5 categories x 404 body versions) paths built without panic, of the documented form, pairwise distinct whenever inputs differ; deconstruct_equipment_path(file name) = (id, slot) for all 100 000 (id, slot). (iii) every permutation of every repository set of <= 7 members drawn from {base, ex1..ex5, ex9} (13 700 orderings; thorough: from all ten, 792 k) sorts to base then expansions by number; on-disk discovery with directories created in shuffled orders. (iv) for all 15x10x10x5x8 (category, expansion, chunk, platform, dat) the index/index2/dat names equal the documented pattern AND the set of files ZiPatch::apply creates for AddData/HeaderUpdate with main=category, sub=exp<<8|chunk, that file id and target platform. evaluations counts individual elements; non-trivial = valid triple / each (id, slot) / permutation of >= 2 members / file name with expansion >= 1, chunk >= 1 or platform != win32.",
+        rule: "Exhaustive enumeration. (i) all 8x16x2 (race, tribe, gender): get_supported_tribes partitions the 16 tribes into 8 disjoint pairs with race r owning tribe codes {2r-1, 2r} (structural oracle, no name table); get_race_id is Some exactly for own tribes; race codes injective over body types (race x gender, Hyur split by tribe). (ii) skeleton, equipment (10 slots x ids 0..9999 x 32 valid triples) and character (5 categories x 404 body versions) paths built without panic, of the documented form, pairwise distinct whenever inputs differ; deconstruct_equipment_path(file name) = (id, slot) for all 100 000 (id, slot). (iii) every permutation of every repository set of <= 7 members drawn from {base, ex1..ex5, ex9} (13 700 orderings; thorough: from all ten, 792 k) sorts to base then expansions by number; on-disk discovery with directories created in shuffled orders. (iv) for all 15x10x10x5x8 (category, expansion, chunk, platform, dat) the index/index2/dat names equal the documented pattern AND the set of files ZiPatch::apply creates for AddData/HeaderUpdate (index files: every header kind V/I/D; dat files: header kinds in rotation) with main=category, sub=exp<<8|chunk, that file id and target platform. evaluations counts individual elements; non-trivial = valid triple / each (id, slot) / permutation of >= 2 members / file name with expansion >= 1, chunk >= 1 or platform != win32.",
         assumptions: &["tribe and race enums carry their game codes; tribe codes are allocated in race order"],
         pre: None,
         post: None,
